@@ -218,3 +218,49 @@ Fixpoint table_lookup (tbl : list (str * verdict)) (k : str) : verdict :=
   end.
 Definition table_layer (prefix : rpath) (glob_walk : bool) (tbl : list (str * verdict)) : layer :=
   fun e t => table_lookup tbl (join_path (presented prefix glob_walk e t)).
+
+(* ---- a glob walk: it starts at the directory the invariant prefix names (GlobWalker / Glob::walk_with_behavior) ---------- *)
+Fixpoint lookup (n : node) (p : rpath) : node :=
+  match p with
+  | [] => n
+  | c :: p' =>
+      match n with
+      | NDir kids =>
+          match find (fun k => str_eqb (fst k) c) kids with
+          | Some k => lookup (snd k) p'
+          | None => NErr
+          end
+      | _ => NErr
+      end
+  end.
+
+(* the non-empty components of a path text *)
+Fixpoint split_aux (s cur : str) : rpath :=
+  match s with
+  | [] => if is_nil cur then [] else [rev cur]
+  | c :: r =>
+      if c =? SEP then (if is_nil cur then split_aux r [] else rev cur :: split_aux r [])
+      else split_aux r (c :: cur)
+  end.
+Definition split_components (s : str) : rpath := split_aux s [].
+
+(* DepthMinMax::min_max_at_pivot: depth behaviours are relative to the directory given to the walk; the walk itself starts
+   [pivot] components below it (saturating subtraction) *)
+Definition window_at_pivot (mind : nat) (maxd : option nat) (pivot : nat) : nat * option nat :=
+  ((mind - pivot)%nat, match maxd with Some m => Some (m - pivot)%nat | None => None end).
+
+(* the directory the walk starts at: the prefix text joined to the directory given; with a trailing separator the
+   operating system refuses anything that is not a directory *)
+Definition glob_walk_root (root : node) (prefix_text : str) : node :=
+  let prefix := split_components prefix_text in
+  let ends_sep := match rev prefix_text with c :: _ => c =? SEP | [] => false end in
+  match lookup root prefix with
+  | NFile => if ends_sep && negb (is_nil prefix) then NErr else NFile
+  | n => n
+  end.
+
+Definition glob_walk (root : node) (prefix_text : str) (mind : nat) (maxd : option nat)
+    (progs : list (name -> bool)) (complete : str -> bool) (rest : list layer) : list ritem :=
+  let prefix := split_components prefix_text in
+  let '(mn, mx) := window_at_pivot mind maxd (length prefix) in
+  walk mn mx (glob_layer prefix progs complete :: rest) (glob_walk_root root prefix_text).
